@@ -29,9 +29,45 @@ pub struct Trace {
     /// bytes 0 and 3 of the version word (unused by SPIR-V)
     pub version_spare: (u8, u8),
     pub words_entry: bool,
+    /// storage fault inside a string: byte `1` (index into the string's bytes) of the first string operand of
+    /// instruction `0` is overwritten with `2` (an invalid UTF-8 byte). If the loader still accepts the binary the
+    /// guarantee applies to the corrupted bytes as they are.
+    #[serde(default)]
+    pub corrupt: Option<(usize, usize, u8)>,
+}
+
+/// word index and byte shift of byte `b` of the first string operand of `i` (relative to the instruction start)
+fn string_byte_pos(i: &MInst, b: usize) -> Option<(usize, u32)> {
+    let mut w = 1 + i.rtype.is_some() as usize + i.rid.is_some() as usize;
+    for o in &i.ops {
+        match o {
+            MOp::S(s) => {
+                if s.is_empty() {
+                    return None;
+                }
+                let b = b % s.len();
+                return Some((w + b / 4, 8 * (b % 4) as u32));
+            }
+            MOp::L64(_) => w += 2,
+            MOp::W(..) => w += 1,
+        }
+    }
+    None
 }
 
 pub struct C01;
+
+impl Trace {
+    fn with_corruption(mut self, rng: &mut Rng) -> Trace {
+        if rng.chance(1, 10) {
+            let with_str: Vec<usize> = self.stream.insts.iter().enumerate().filter(|(_, i)| i.ops.iter().any(|o| matches!(o, MOp::S(s) if !s.is_empty()))).map(|(k, _)| k).collect();
+            if !with_str.is_empty() {
+                self.corrupt = Some((*rng.pick(&with_str), rng.usize_below(64), *rng.pick(&[0xFFu8, 0xC0, 0xE2, 0x80, 0xF8])));
+            }
+        }
+        self
+    }
+}
 
 /// reference encoding plus a care-mask (0 bits = don't care: bytes after a string's NUL)
 fn encode_with_mask(i: &MInst, pad: &mut Option<u32>, out: &mut Vec<u32>, mask: &mut Vec<u32>) {
@@ -182,7 +218,9 @@ impl Property for C01 {
             pad_seed: if rng.chance(1, 2) { Some(rng.u32()) } else { None },
             version_spare: if rng.chance(1, 3) { (rng.below(256) as u8, rng.below(256) as u8) } else { (0, 0) },
             words_entry: rng.chance(1, 2),
+            corrupt: None,
         }
+        .with_corruption(rng)
     }
 
     fn execute(t: &Trace, cov: &mut Cov) -> RunOut {
@@ -195,7 +233,7 @@ impl Property for C01 {
         cov.hit("steps");
         // ---- input bytes (producer's own encoding, junk in the don't-care bytes) -------------
         let version_in = (t.stream.header.version & 0x00ff_ff00) | t.version_spare.0 as u32 | ((t.version_spare.1 as u32) << 24);
-        let mut words = vec![MAGIC, version_in, t.stream.header.generator, t.stream.header.bound, t.stream.header.schema];
+        let mut words: Vec<u32> = vec![MAGIC, version_in, t.stream.header.generator, t.stream.header.bound, t.stream.header.schema];
         let mut mask_in = vec![!0u32; 5];
         let mut pad = t.pad_seed;
         for i in &t.stream.insts {
@@ -206,6 +244,19 @@ impl Property for C01 {
         }
         if t.version_spare != (0, 0) {
             cov.hit("fault.version_spare_bytes_randomised");
+        }
+        let clean_bytes = words_to_bytes(&words);
+        // storage fault inside a string (applied to the input the real code sees)
+        let mut corrupt_at: Option<(usize, usize, u32, u32)> = None; // (inst, word in inst, shift, byte)
+        if let Some((j, b, v)) = t.corrupt {
+            if let Some(inst) = t.stream.insts.get(j) {
+                if let Some((w, sh)) = string_byte_pos(inst, b) {
+                    let start = 5 + t.stream.insts[..j].iter().map(inst_words).sum::<usize>();
+                    words[start + w] = (words[start + w] & !(0xFF << sh)) | ((v as u32) << sh);
+                    corrupt_at = Some((j, w, sh, v as u32));
+                    cov.hit("fault.string_byte_corrupted");
+                }
+            }
         }
         let bytes = words_to_bytes(&words);
         let nontrivial = t.stream.insts.len() >= 3;
@@ -222,7 +273,7 @@ impl Property for C01 {
         // the producer stream must be grammar-valid; the reference automaton gives the expected module
         // "the input's instructions" are what the REFERENCE acceptor reads from the bytes (a reordering may
         // have moved a literal in front of the declaration that sized it in the producer's mind)
-        let input = accept(&bytes);
+        let input = accept(&clean_bytes);
         if input.outcome != Outcome::Accept {
             cov.hit("skipped.not_grammar_valid");
             return out(None, &h);
@@ -256,7 +307,11 @@ impl Property for C01 {
             }
             Ok(Err(_)) => {
                 // the property is conditional on acceptance; rejection of a valid module is C05's finding
-                cov.hit("skipped.loader_rejected");
+                if corrupt_at.is_some() {
+                    cov.hit("reached.corrupted_string_rejected");
+                } else {
+                    cov.hit("skipped.loader_rejected");
+                }
                 return out(None, &h);
             }
             Ok(Ok(m)) => m,
@@ -279,7 +334,7 @@ impl Property for C01 {
         }
         // expected instruction sequence: stable sort of the input by layout position
         let expect_insts = flatten(&a.module);
-        let mut exp_words = vec![];
+        let mut exp_words: Vec<u32> = vec![];
         let mut exp_mask = vec![];
         let mut exp_starts = vec![];
         let mut nopad = None;
@@ -298,6 +353,18 @@ impl Property for C01 {
                 cov.hit("skipped.width_dependent_reorder");
                 return out(None, &h);
             }
+        }
+        // the corrupted byte must come back exactly as it went in
+        if let Some((j, w, sh, v)) = corrupt_at {
+            cov.hit("reached.corrupted_string_accepted");
+            let target = &input_insts[j];
+            let cands: Vec<usize> = expect_insts.iter().enumerate().filter(|(_, i)| *i == target).map(|(k, _)| k).collect();
+            if cands.len() != 1 {
+                cov.hit("skipped.ambiguous_corruption_target");
+                return out(None, &h);
+            }
+            let st = exp_starts[cands[0]];
+            exp_words[st + w] = (exp_words[st + w] & !(0xFF << sh)) | (v << sh);
         }
         let got = &asm[5..];
         // walk instruction by instruction for a readable diagnosis
@@ -393,6 +460,11 @@ impl Property for C01 {
         if t.version_spare != (0, 0) {
             let mut c = t.clone();
             c.version_spare = (0, 0);
+            out.push(c);
+        }
+        if t.corrupt.is_some() {
+            let mut c = t.clone();
+            c.corrupt = None;
             out.push(c);
         }
         let n = t.stream.insts.len();
